@@ -651,6 +651,7 @@ def main(tier, seed):
     # whole-run traces of `inspect` validated against specs/Osaca.tla (clauses owned by this property)
     from harness import osaca_run
     osaca_run.whole_runs(run, "C13", tier, seed, n_quick=24)
+    osaca_run.api_reuse(run, "C13", tier, seed)
     return run.finish()
 
 
